@@ -69,11 +69,11 @@ PROPS = {
         'not_covered': ['independence from the gensym counter ARGNAME_CTR, from HashMap iteration order and from the compiling thread (relational properties of the whole compiler over two runs): bounded stand-in only (E3: 72 programs compiled again after other, also failed, compilations and on a second thread; bytes and user-visible symbols compared)', 'hash seeds across processes'],
     },
     'C18': {
-        'units': ['deps'],
+        'units': ['deps', 'depwalk'],
         'e3_always': ['deps'],
         'e3': ['deps'],
-        'decided': 'read_new_file: a real (non pseudo) file is taken from the FIRST search directory in which it is readable, the reported name is that path, and an error means no directory has it (file system uninterpreted)',
-        'not_covered': ['recurse_dependencies / process_pp_form reaching every include and embed-file form: bounded stand-in only (E3 on a temporary directory tree: include, embed-file bin/hex, shadowed search path; cl21 and cl23)', 'gather_dependencies filter', 'pseudo-file branch of read_new_file'],
+        'decided': 'read_new_file: a real (non pseudo) file is taken from the FIRST search directory in which it is readable, the reported name is that path, and an error means no directory has it (file system uninterpreted); the walk: recurse_dependencies records every non-dialect include under the name read_new_file resolves it to, with its kind, and keeps earlier entries; process_pp_form calls it before process_include / process_embed, which read exactly the file so listed (reads are a subset of the listing), for any classification of the form',
+        'not_covered': ['which forms are recognised as include / embed-file (the classification closure is cut, R40; reads and listing share it): bounded stand-in only (E3 on a temporary directory tree: include, embed-file bin/hex, shadowed search path; cl21 and cl23)', 'that the file system answers the same between the walk and the read (assumed)', 'the classic compiler\'s own include reader (_read / _full_path_for_name operators)', 'gather_dependencies filter', 'pseudo-file branch of read_new_file'],
     },
     'C13': {
         'e3_always': ['symbols'],
@@ -97,11 +97,11 @@ PROPS = {
         'not_covered': ['quoted-string escape/un-escape agreement: bounded stand-in only (E3 round trip on all 1-byte, 2304 2-byte and special 3-byte atoms, 3 positions, 3 versions); the Kani per-atom harness did not finish (HashMap + String in CBMC, 20 min) and was dropped', 'decimal and hex text conversion (assumed inverse pairs)', 'list / dot layout', 'modern printer and reader: bounded stand-in only', 'CLI path'],
     },
     'C14': {
-        'units': ['safety', 'srcloc', 'ser', 'printer'],
-        'e3_always': ['no_panic'],
-        'e3': ['no_panic'],
-        'decided': 'absence of panics, arithmetic overflow, out-of-bounds indexing and non-termination (under the stated preconditions) in the front-end leaves under contract: Stream::read / set_seek / get_seek, IRReader::backup, Bytes accessors and concat, atom_from_stream, atom_size_blob, int_from_bytes, get_u32, Srcloc arithmetic incl. len, is_hex / is_space / is_eol, has_oversized_sign_extension, ir_for_atom',
-        'not_covered': ['the readers as wholes (parse_sexp, read_ir, sexp_from_stream): bounded stand-in only (E3 no-panic sweep, bound stated in evidence)', 'compile, run, debug, REPL, dependency listing as wholes', 'located-error clause beyond C15', 'preconditions at unverified call sites (e.g. Stream length >= 1 at IRReader::backup) are assumptions'],
+        'units': ['safety', 'srcloc', 'ser', 'printer', 'depwalk'],
+        'e3_always': ['no_panic', 'include_files'],
+        'e3': ['no_panic', 'include_files'],
+        'decided': 'absence of panics, arithmetic overflow, out-of-bounds indexing and non-termination (under the stated preconditions) in the front-end leaves under contract: Stream::read / set_seek / get_seek, IRReader::backup, Bytes accessors and concat, atom_from_stream, atom_size_blob, int_from_bytes, get_u32, Srcloc arithmetic incl. len, is_hex / is_space / is_eol, has_oversized_sign_extension, ir_for_atom; Preprocessor::process_include / recurse_dependencies index no parsed form that is not there (empty include file: finding F14, fixed)',
+        'not_covered': ['the readers as wholes (parse_sexp, read_ir, sexp_from_stream): bounded stand-in only (E3 no-panic sweep, bound stated in evidence)', 'compile, run, debug, REPL, dependency listing as wholes', 'termination of the include walk: recurse_dependencies <-> process_pp_form carry no decreases clause; include cycles overflow the stack (open finding F15, reproduced each run by the include_files stand-in in a child process)', 'located-error clause beyond C15', 'preconditions at unverified call sites (e.g. Stream length >= 1 at IRReader::backup) are assumptions'],
     },
     'C19': {
         'units': ['atomicwrite'],
